@@ -44,6 +44,9 @@ def srq_program(params):
     th = w.shims["threading"]
     producers = params["producers"]
     gets = params["gets"]
+    if params.get("ins_yields"):
+        # put() works on shared state outside the queue's mutex: every bytecode instruction of it is a yield point
+        detsched.enable_instruction_yields([SRQ.put])
 
     def program(s):
         q = SRQ()
@@ -53,7 +56,13 @@ def srq_program(params):
         def prod(k):
             for it in items[k]:
                 s.log("call", op="put", id=it.id, v=it.v)
-                q.put(it)
+                try:
+                    q.put(it)
+                except detsched.SchedAbort:
+                    raise
+                except Exception as e:  # noqa: BLE001  (an observation, not a harness error)
+                    s.log("ret", op="put", exc=type(e).__name__)
+                    continue
                 s.log("ret", op="put")
 
         def cons():
